@@ -621,6 +621,9 @@ func (oa *ordAnalysis) checkCall(fn *ssa.Function, h *ssa.BasicBlock, c ssa.Call
 	if ordPureCalls[n] || isIterPureMethod(n) {
 		return ""
 	}
+	if calleeBase(c) == "maps.Copy" && len(c.Common().Args) == 2 && derivedFrom(c.Common().Args[0], vars, 0) {
+		return "" // a set of stores into the iteration's own map: rule (iv)
+	}
 	if _, isLog := loggerCall(c); isLog {
 		return ""
 	}
@@ -761,6 +764,12 @@ func (oa *ordAnalysis) confined(fn *ssa.Function, seen map[*ssa.Function]bool) (
 		case ssa.CallInstruction:
 			n := calleeName(x)
 			if ordPureCalls[n] || n == "builtin:panic" {
+				return
+			}
+			if calleeBase(x) == "maps.Copy" && len(x.Common().Args) == 2 {
+				if !okRoot(x.Common().Args[0]) {
+					bad = "map copy at " + oa.w.IPos(x)
+				}
 				return
 			}
 			if _, isLog := loggerCall(x); isLog {
